@@ -98,6 +98,9 @@ def rule_alloc_eval(chk, aab):
                    ("global", o["StructuredBuffer"], 2, False), ("global", o["RWByteAddressBuffer"], 0, False)],
         "addresses": [("global", o["BufferAddress"], None, False), ("global", o["Texture2D"], None, False), ("global", o["RWBufferAddress"], None, False),
                       ("global", o["BufferAddress"], 3, False), ("global", o["RWBuffer"], 3, False), ("cbuffer", 3)],
+        # a table of addresses is an array of resources (slots), a qualified address is still an address (one 8-byte inline constant: the exporter writes one uint64_t per binding)
+        "address-tables": [("global", m.array(o["BufferAddress"], 4), None, False), ("global", m.mod(o["BufferAddress"]), None, False), ("global", m.array(m.mod(o["RWBufferAddress"]), 2), 1, False),
+                           ("global", o["RWBufferAddress"], 1, False), ("global", o["Texture2D"], None, False)],
         "samplers-and-plain-globals": [("global", o["SamplerState"], None, True), ("global", o["Texture2D"], None, False), ("global", fl, None, False), ("fn",),
                                        ("global", o["SamplerState"], None, False), ("global", o["SamplerState"], 1, True), ("global", o["Texture2D"], 1, False)],
     }
